@@ -9,6 +9,7 @@ From VQ Require Import Glue.Pin_fp_C09.
 From VQ Require Import Proofs.EinopsProofs Proofs.EinopsRepeat.
 From VQ Require Import Model.NonFinite Proofs.NonFiniteProofs Glue.NonFiniteGlue.
 From VQ Require Import Glue.Pin_o_vq_mask_proj Glue.Pin_o_rvq_mask_proj.
+From VQ Require Import Model.Strides Proofs.StridesProofs Glue.Pin_inv_view_writes.
 Import ListNotations.
 Open Scope R_scope.
 
@@ -263,3 +264,36 @@ Theorem C09_tie_rvq_mask_proj_pin :
   o_rvq_mask_proj.o_rvq_mask_proj = pinned_o_rvq_mask_proj.
 Proof. exact (@Pin_o_rvq_mask_proj.pin_o_rvq_mask_proj). Qed.
 Print Assumptions C09_tie_rvq_mask_proj_pin.
+
+Theorem C09_reshape_write_lands_when_contiguous :
+  forall (A : Type) (zero : A) (b n d : nat) (m : storage A) (rows : nat -> bool) (i j k : nat),
+       (i < b)%nat ->
+       (j < n)%nat ->
+       (k < d)%nat ->
+       get A (write_through_reshape A zero m (contiguous b n d) rows) (contiguous b n d) i j k =
+       where_rows A zero m (contiguous b n d) rows i j k.
+Proof. exact (@StridesProofs.contiguous_write_lands). Qed.
+Print Assumptions C09_reshape_write_lands_when_contiguous.
+
+Theorem C09_reshape_write_lost_on_permuted_view :
+  forall (A : Type) (zero : A) (b n d : nat) (m : storage A) (rows : nat -> bool),
+       (2 <= b)%nat ->
+       (2 <= n)%nat -> (1 <= d)%nat -> write_through_reshape A zero m (batch_permuted b n d) rows = m.
+Proof. exact (@StridesProofs.permuted_write_is_lost). Qed.
+Print Assumptions C09_reshape_write_lost_on_permuted_view.
+
+Theorem C09_write_through_reshape_refuted :
+  forall (A : Type) (zero one : A),
+       one <> zero ->
+       exists (t : t3) (m : storage A) (rows : nat -> bool) (i j k : nat),
+         (i < nb t)%nat /\
+         (j < nn t)%nat /\
+         (k < nd t)%nat /\
+         get A (write_through_reshape A zero m t rows) t i j k <> where_rows A zero m t rows i j k.
+Proof. exact (@StridesProofs.write_through_reshape_refuted). Qed.
+Print Assumptions C09_write_through_reshape_refuted.
+
+Theorem C09_tie_no_new_write_through_view_handles :
+  inv_view_writes.inv_view_writes = pinned_inv_view_writes.
+Proof. exact (@Pin_inv_view_writes.pin_inv_view_writes). Qed.
+Print Assumptions C09_tie_no_new_write_through_view_handles.
